@@ -182,11 +182,25 @@ def run_real(desc):
     major_sols = major.estimate_major(gene, cov, cn_sol, "cbc")
     calls = []
     orig = minor.solve_minor_model
+    # the documented set of considered variants: every variant (core or silent) of every minor allele of every major allele
+    # called by ANY of the major solutions, every novel variant ANY of them proposes, the catalogued variants that belong
+    # to no allele - pooled, the same for every refinement of the call (not recomputed when novel variants are asked for:
+    # those come out of the evidence)
+    pool = None
+    if not desc.get("novel"):
+        pool = set(gene.random_mutations)
+        for ms_ in major_sols:
+            for sa in ms_.solution:
+                pool |= set(gene.alleles[sa.major].func_muts)
+                for mi_ in gene.alleles[sa.major].minors.values():
+                    pool |= set(mi_.neutral_muts)
+            pool |= set(ms_.added)
 
     def wrapped(gene_, coverage_, major_sol, alleles_list, mutations, solver, max_solutions=1):
         with Recorder() as rec:
             res = orig(gene_, coverage_, major_sol, alleles_list, mutations, solver, max_solutions)
-        calls.append({"cov": coverage_, "major_sol": major_sol, "alleles_list": list(alleles_list), "mutations": list(mutations),
+        calls.append({"cov": coverage_, "major_sol": major_sol, "alleles_list": list(alleles_list),
+                      "mutations": sorted(pool) if pool is not None else list(mutations), "mutations_real": set(mutations),
                       "snap": rec.snaps[0][1] if rec.snaps else None, "yields": list(rec.yields), "result": list(res)})
         return res
 
@@ -618,8 +632,16 @@ def tie(ctx):
                 stats["with_added"] += any(a.added for a in s.solution)
                 stats["with_missing"] += any(a.missing for a in s.solution)
     outs = lib.driver_batch(reqs)
-    fam = {k: {"cases": 0, "disagreements": []} for k in ("minor_structure", "minor_readout", "minor_score", "minor_spec_score")}
+    fam = {k: {"cases": 0, "disagreements": []} for k in ("minor_structure", "minor_readout", "minor_score", "minor_spec_score", "considered_set")}
     famhit = collections.Counter()
+    for meta in metas:
+        if meta is not None and meta[0] == "build":
+            _k, d, real, call = meta
+            fam["considered_set"]["cases"] += 1
+            if call["mutations_real"] != set(call["mutations"]):
+                miss = sorted(set(call["mutations"]) - call["mutations_real"])[:4]
+                more = sorted(call["mutations_real"] - set(call["mutations"]))[:4]
+                fam["considered_set"]["disagreements"].append({"why": f"the refinement of {dict((sa.major, k) for sa, k in call['major_sol'].solution.items())} considers a different set of variants than the documented pool over all major solutions: missing {miss}, extra {more}", "input": d})
     distinct = set()
     samples = []
     for meta, o in zip(metas, outs):
